@@ -386,7 +386,7 @@ class ConnHarness:
             "tp": "lost" if self.tr.lost else ("closing" if self.tr.closing else "open"),
             "timer": "armed" if self.loop.next_timer() is not None else "notarmed",
             "calls": dict(self.calls),
-            "busy": bool(tasks),
+            "busy": bool(tasks) or bool(self.loop._ready),      # work in flight: unfinished tasks or callbacks already queued
             "torn": bool(self.tr.wire) and bool(getattr(self.tr, "fatal", None)),
             "consultedOK": self.consulted_ok(),
         }
